@@ -5,7 +5,7 @@ from vlib.printer import close
 
 ID = "C14"
 BUDGET = {"quick": 2500, "thorough": 25000}
-PROFILE = gen.profile(retract="matched", at_w=7, at_custom=True, streaming=True, home_mid=False, arcs=1, offon=3)
+PROFILE = gen.profile(retract="matched", at_w=7, at_custom=True, streaming=True, home_mid=False, arcs=1, offon=3, set_at=1)
 RULE = ("C03-style programs with enable / disable / unrelated / malformed @-commands inserted anywhere (inside and outside "
         "episodes), default and generated custom action tables (several entries per command, patterns from a small regex pool, "
         "trailing parameter text), occasionally with the comm object streaming to SD; single-axis and relative moves follow "
@@ -35,10 +35,15 @@ def run_case(case, strict=False):  # pylint: disable=unused-argument,too-many-br
     out = asserts.exceptions(tr)
     out += [f for f in asserts.c01(tr) if f["tag"] != "exception"]
     atm = core.AtModel(case.get("config", {}).get("at"))
+    cl0 = set()
     phase = 0          # 0: enabled, 1: disabled, 2: moved while disabled, 3: re-enabled after that
     nontrivial = False
     cl = set()
     for it in tr.items:
+        if it.kind == "set_at":
+            atm = core.AtModel(it.item[1])
+            cl0.add("action_table_changed_mid_print")
+            continue
         if it.kind == "g" and it.is_move:
             if not it.enabled_before:
                 if it.cmd not in it.out:
@@ -91,6 +96,7 @@ def run_case(case, strict=False):  # pylint: disable=unused-argument,too-many-br
                     if snap is not None and not snap["enabled"]:
                         out.append(asserts.F("c14_enable_ignored", it, "exclusion still disabled after a matching enable"))
     cl2, _ = asserts.classes(tr, case)
+    cl |= cl0
     return out, {"nontrivial": nontrivial, "classes": sorted(cl | cl2), "truncated": tr.truncated, "excluded_known": case.get("meta", {}).get("excluded_known", 0),
                  "sample": {"regions": case["regions"], "config": case["config"],
                             "prog": [i[1] if i[0] == "g" else i for i in case["prog"]]}}
